@@ -225,7 +225,9 @@ def main(argv=None):
             return subprocess.call(cmd, shell=True, cwd=ROOT)
         return 0
     budget = 10 if tier == "quick" else 60
-    ev_path = os.path.join(ROOT, "evidence", prop + ".json")
+    # seed trials (tools/try_seed.sh) run the check on a deliberately broken tree: their records must not
+    # replace the evidence of the unchanged tree, so they redirect it with PYVC_EVIDENCE_DIR
+    ev_path = os.path.join(os.environ.get("PYVC_EVIDENCE_DIR") or os.path.join(ROOT, "evidence"), prop + ".json")
     os.makedirs(os.path.dirname(ev_path), exist_ok=True)
 
     def undecided(msg, code=EXIT_UNDECIDED):
@@ -423,7 +425,9 @@ def main(argv=None):
     trusted.append("fold axioms Sum/All over concatenation (definitional), z3/cvc5 soundness, pyvc encoding of Python (DESIGN 2.8)")
     trusted += ["assumption: " + x for x in spec.assumptions]
     # obligations that fail because of a recorded known finding are reported separately, not counted as discharged
-    n_ob = len(proof) - len(known_hits)
+    # (known_hits also holds hits of the native/bounded driver, which are not proof obligations)
+    failed_names = set(o.name for o, r in failed)
+    n_ob = len(proof) - len(set(n for k, n in known_hits if n in failed_names))
     n_dis = len([1 for o, r in proof if r["result"] == "unsat"])
     samples = []
     for o, r in proof[:3]:
